@@ -506,6 +506,10 @@ def rule_label_list_dispatch(ctx, rid='R7'):
             if x[0] == 'call' and T.dotted(x[1]) == 'isinstance' and len(x[2]) == 2:
                 ty = x[2][1]
                 types |= set(T.dotted(y) for y in (ty[1] if ty[0] == 'tuple' else [ty]))
+        only_1d = content and all(T.call_name(x) == 'is_array1d_equiv' for x in content)
+        if only_1d and array1d_equiv_handles_empty(ctx):
+            # a content test is fine when the predicate answers True for an empty list (first-element reads guarded: the rule of R13)
+            continue
         if content:
             ctx.violated(rid, fi, 'label-list dispatch', 'the `axes=[labels, ...]` form is recognised with the content test %s: an empty label list (zero-length axis, as read back '
                          'from JSON) is not "1-d array equivalent" and the constructor raises TypeError' % T.show(content[0])[:60], node=p.node)
@@ -805,6 +809,31 @@ def unguarded_end_reads(t, known, is_read, fact):
                             walk(z if (z and isinstance(z[0], str)) else (z[1] if len(z) == 2 and isinstance(z[1], tuple) else ()), known)
     walk(t, list(known))
     return out
+
+
+def array1d_equiv_handles_empty(ctx):
+    """is_array1d_equiv: are all first-element reads guarded (and is the answer for an empty 1-d sequence not forced to False)?"""
+    from .c06 import _nonempty_fact
+    fi = ctx.fn('dimarray.tools.is_array1d_equiv')
+    A = P_('a')
+    ARR = ('call', ('attr', ('name', 'np'), 'asarray'), (A,), ())
+
+    def is_read(x):
+        if x[0] == 'sub' and x[2] in (const(0), const(-1)) and x[1] in (ARR, A):
+            return ARR
+        return None
+
+    def fact(atom, pol):
+        f = _nonempty_fact(atom, pol)
+        return ARR if f in (ARR, A) else None
+    ev = run(ctx, fi, mode='fork')
+    for p in ev.paths:
+        known = [f for f in (fact(a, pol) for a, pol in p.guards) if f is not None]
+        known_a = known + ([ARR] if any(a == T.mkcmp('==', ('call', ('name', 'len'), (A,), ()), const(1)) and pol for a, pol in p.guards) else [])
+        for src in [p.value] + [a for a, pol in p.guards]:
+            if src is not None and unguarded_end_reads(src, known_a, is_read, fact):
+                return False
+    return True
 
 
 def rule_array1d_equiv(ctx):
